@@ -152,6 +152,13 @@ VARIANTS = {
         sub("src/cards/two.rs", "        points.ceil() as i8", "        debug_assert!((-1.5..=20.0).contains(&points), \"chen range\");\n        points.ceil() as i8"),
         sub("src/cards/binary_card.rs", "            if *self & bc == bc {\n                *self ^= bc;", "            if *self & bc == bc {\n                debug_assert!(bc.is_power_of_two());\n                *self ^= bc;"),
     ], ["C01", "C02", "C04", "C05", "C06", "C07", "C15", "C16", "C17"]),
+    # log statements (the crate already depends on the `log` facade)
+    "logging": ([
+        sub("src/cards/five.rs", "        let i = self.or_rank_bits() as usize;\n", "        let i = self.or_rank_bits() as usize;\n        log::trace!(\"ranking five cards with rank mask {:#x}\", i);\n"),
+        sub("src/cards/six.rs", "            let hrv = hand.hand_rank_value();\n", "            let hrv = hand.hand_rank_value();\n            log::debug!(\"candidate {:?} ranks {}\", perm, hrv);\n"),
+        sub("src/parse.rs", "    let mut chars = index.chars();\n", "    log::trace!(\"parsing token {}\", index);\n    let mut chars = index.chars();\n"),
+        sub("src/deck.rs", "        if index < Deck::len() {\n", "        if index >= Deck::len() {\n            log::warn!(\"deck index {} out of range\", index);\n        }\n        if index < Deck::len() {\n"),
+    ], ["C01", "C02", "C05", "C12", "C18"]),
     # assertions that hold on every input
     "true_assertions": ([sub("src/lib.rs", "    fn get_rank_prime(&self) -> u32 {\n        self.as_u32()", "    fn get_rank_prime(&self) -> u32 {\n        debug_assert!(CardNumber::RANK_PRIME_FILTER == 0b00111111);\n        self.as_u32()"),
                          sub("src/deck.rs", "        if index < Deck::len() {\n            POKER_DECK.0[index]", "        if index < Deck::len() {\n            debug_assert!(index < 52);\n            POKER_DECK.0[index]"),
